@@ -16,6 +16,7 @@ mod ckstore;
 mod ckequiv;
 mod codec;
 mod aggregate;
+mod ratelimit;
 
 fn main() {
     let args: Vec<String> = std::env::args().collect();
@@ -47,6 +48,8 @@ fn main() {
         "ckequiv-replay" => ckequiv::replay(rest),
         "codec-replay" => codec::replay(rest),
         "agg-replay" => aggregate::replay(rest),
+        "rl-replay" => ratelimit::replay(rest),
+        "rl-record" => ratelimit::record(rest),
         "for-expand" => misc::for_expand(rest),
         "event-file" => misc::event_file(rest),
         other => {
